@@ -147,37 +147,43 @@ def holdsGdef (f : File) (o : File) : Bool := skel o == skel f && ftoks o == fto
 
 /-! ### the GDEF writer: a hand-written part of `table GDEF` is not written a second time -/
 
-/-- the user's statements of the first `table GDEF` of the file (none: the file has no such table) -/
-def userGdef (f : File) : Option (List Item) :=
+/-- the statements of the first `table GDEF` of the file (none: the file has no such table): where the writer appends -/
+def firstGdef (f : File) : Option (List Item) :=
   (f.findSome? (fun s => match s with
     | .block _ .table tag _ body => if tag == "GDEF" then some body else none
     | _ => none))
 
+/-- the statements of ALL `table GDEF` blocks of the file, in reading order: what the user wrote by hand for GDEF -/
+def userGdef (f : File) : List Item :=
+  f.flatMap (fun s => match s with
+    | .block _ .table tag _ body => if tag == "GDEF" then body else []
+    | _ => [])
+
 def isCaretKind : GKind → Bool | .caretByIndex => true | .caretByPos => true | _ => false
 
 /-- `gen` = the types of the statements the GDEF writer added (read off the AST by the harness).  Glyph classes are
-generated (once) exactly when the user's table defines none and the font has categories; ligature carets are generated
-(one statement per glyph that has caret anchors) exactly when the user's table holds no ligature caret statement of
-either form; nothing else is generated. -/
+generated (once) exactly when none of the user's `table GDEF` blocks defines any and the font has categories; ligature carets are generated
+(one statement per glyph that has caret anchors) exactly when none of the user's blocks holds a ligature caret statement
+of either form; nothing else is generated. -/
 def holdsGdefGen (i : GdefIn) (f : File) (gen : List GKind) : Bool :=
-  let user := ((userGdef f).getD []).map (itemKind i.kinds)
+  let user := (userGdef f).map (itemKind i.kinds)
   gen.count .glyphClassDef == (if !user.contains .glyphClassDef && i.hasCats then 1 else 0) &&
   gen.count .caretByPos == (if user.any isCaretKind then 0 else i.carets) &&
   gen.all (fun k => k == .glyphClassDef || k == .caretByPos)
 
 /-- how many statements the GDEF writer has to add -/
 def specGdefCount (i : GdefIn) (f : File) : Nat :=
-  let user := ((userGdef f).getD []).map (itemKind i.kinds)
+  let user := (userGdef f).map (itemKind i.kinds)
   (if !user.contains .glyphClassDef && i.hasCats then 1 else 0) + (if user.any isCaretKind then 0 else i.carets)
 
-/-- where the generated statements are: inside the user's table if there is one, else in one new top-level statement
+/-- where the generated statements are: inside the user's first `table GDEF` if there is one, else in one new top-level statement
 at the end of the file; if nothing is generated the file is the same -/
 def holdsGdefPlace (f : File) (n : Nat) (o : File) : Bool :=
   if n == 0 then o == f
-  else match userGdef f with
+  else match firstGdef f with
     | some body =>
       o.length == f.length &&
-      (match userGdef o with
+      (match firstGdef o with
        | some body' => body'.take body.length == body && body'.length == body.length + n &&
                        (body'.drop body.length).all (fun it => !notGen it)
        | none => false)
